@@ -95,7 +95,7 @@ def stepLine (w : World) (line : String) : World × String :=
     let ex : List Ev := if 0 < w.n0 && decide (w.n0 < w.s.h.db.length) then [Ev.export] else []
     ({ w with s := s', trace := w.trace ++ ex }, showSt s')
   | ["crashload"] =>
-    match restart id w.s.h.file with
+    match restart id w.s.h with
     | some s' => ({ w with s := s', n0 := 0, h0 := s'.h, trace := [] }, showSt s')
     | none => (w, "E")
   | ["trunc", k] =>
